@@ -14,12 +14,28 @@ IMPORTS = ["SodiumModel.Properties.C05", "SodiumModel.Properties.C05LowOrder"] i
 THEOREMS = THEOREMS + vcore.theorems_in("SodiumModel/Properties/C05Fe51.lean", ['add_spec', 'sub_spec', 'sub_wrong_on_huge_g', 'mul_no_overflow', 'carry_chain_spec', 'mul_spec', 'mul_wrong_beyond_loose', 'sq_eq_mul', 'sq_spec', 'sq2_spec', 'sq2_wrong_on_loose', 'mul32_spec', 'neg_spec', 'cswap_spec', 'cswap_out_of_contract', 'cmov_spec', 'cmov_variants_differ_out_of_contract', 'frombytes_spec', 'reduce_spec', 'tobytes_spec', 'isnegative_spec', 'iszero_spec', 'invert_spec', 'spec_inv_eq_pow', 'fe51_refines', 'fe51_no_single_relation', 'refines_is_TL', 'ladder_any_field_TL', 'x25519_fe51_eq_ref10', 'x25519_fe51_eq_rfc7748', 'x25519_fe51_clamp', 'x25519_fe51_general', 'fe51_eq_spec_ladder'], "Sodium.C05Fe51")
 IMPORTS = IMPORTS + ["SodiumModel.Properties.C05Ladder", "SodiumModel.Properties.C05Fe51"]
 TABLES = ['x25519_blocklist_eq']      # Tie B: kernel-checked `table regenerated from the source = model table`
+THEOREMS = THEOREMS + vcore.theorems_in("SodiumModel/Properties/C10Fe25.lean", ['val_def', 'fval_def', 'bnd_def', 'bounds_def', 'bounds_chain', 'add_spec', 'sub_spec', 'neg_spec', 'add_sub_tight', 'add_wraps_unbounded', 'premul_no_overflow', 'mul_no_overflow', 'mul_acc_value', 'carry_chain_value', 'mul_spec', 'mul_wrong_beyond_loose', 'sq_spec', 'sq_no_overflow', 'sq2_spec', 'mul32_spec', 'mul32_wrong_for_large_n', 'frombytes_spec', 'reduce_first_q', 'reduce_no_overflow', 'reduce_spec', 'tobytes_spec', 'tobytes_tight', 'reduce_wrong_in_documented_range', 'isnegative_spec', 'iszero_spec', 'cswap_spec', 'cswap_out_of_contract', 'cmov_spec', 'invert_spec', 'pow22523_spec', 'fe25_refines', 'sub_tight_loose_not_loose', 'refinesTL_is_TT', 'ladder_any_field_TT', 'x25519_fe25_eq_ref10', 'x25519_fe25_eq_rfc7748', 'x25519_fe25_clamp', 'x25519_fe25_general', 'x25519_fe25_eq_fe51', 'fe25_eq_spec_ladder'], "Sodium.C10Fe25")
+IMPORTS = IMPORTS + ["SodiumModel.Properties.C10Fe25"]
+tie_b = lambda ctx: tie_b_fe25(ctx)
 FINGERPRINTS = "C05"     # Tie B: pinned source text of the hand-transcribed limb code (tools/fingerprint.py)
 RULE = ("random (scalar, point) pairs; the low-order / non-canonical u-coordinates (0, 1, the two order-8 points, p-1, p, p+1) with either top bit; u in p-k..p+k and "
         "2^255-k..2^255-1; scalars covering all 32 clamp-bit patterns; limb-structured field elements (all-ones 51-bit and 25.5-bit limbs); key exchange: both sides computed "
         "and required cross-equal; box in both cipher variants with all call forms; seeded key pairs; backends: AVX (sandy2x) / ref10 fe51 / fe25.5 / portable")
 ASSUMPTIONS = ["ladder = scalar multiplication on the curve and Diffie-Hellman commutativity need a formalised group law; they are translation-validated against the RFC 7748 ladder over naturals and by computing both sides of every exchange"]
 P = edpy.p
+
+
+
+def tie_b_fe25(ctx):
+    """the radix-2^25.5 field code (build without 128-bit integers): fe25519_mul / sq / sq2 / mul32 / frombytes are re-transcribed from the current source by
+    tools/c2lean_fe25.py on every run; if the text differs the proofs (no-overflow, value mod p, X25519 over this field = RFC 7748) are re-checked against it"""
+    import subprocess, sys, os
+    e = dict(os.environ); e["VERIF_REPO"] = vcore.REPO
+    gen = lambda out: subprocess.run([sys.executable, os.path.join(vcore.VERIF, "tools", "c2lean_fe25.py"), out], capture_output=True, text=True, env=e)
+    r = vcore.tie_b_regen_multi(ctx, "fe25519 25.5-bit limb code (tools/c2lean_fe25.py)", gen, ["SodiumModel/Model/Fe25Gen.lean", "SodiumModel/Proofs/Fe25Gen.lean"],
+                                "SodiumModel.Properties.C10Fe25", ["Sodium.C10Fe25.mul_spec", "Sodium.C10Fe25.sq_spec", "Sodium.C10Fe25.sq2_spec", "Sodium.C10Fe25.mul32_spec", "Sodium.C10Fe25.frombytes_spec", "Sodium.C10Fe25.x25519_fe25_eq_rfc7748"])
+    ctx.log("Tie B: 25.5-bit field code re-transcribed from the source, %s" % ("identical / proofs hold" if not r else "CHANGED: %s" % [x[0] for x in r]))
+    return r
 
 
 def configs(tier):
